@@ -34,7 +34,7 @@ EXPLANATION = ("theorems: the sweep laws refine the documented laws on live supp
 
 
 def gen_fn(rng):
-    return gen.gen_system(rng, phases=0.15, p_rail=0.15, p_neg_src_rs=0.05)
+    return gen.gen_system(rng, phases=0.15, p_rail=0.15, p_neg_src_rs=0.05, p_group=rng.choice([0.0, 0.0, 0.3]))
 
 
 def solve_kw(rng):
@@ -97,8 +97,11 @@ def per_case(ctx, desc, obs, model, sys_, df, kw):
     ctx.case(key=solved.desc_key(desc), nontrivial=len(desc["comps"]) >= 3,
              sample={"components": [(c["kind"], c["name"], c["parents"]) for c in desc["comps"]],
                      "rows": len(obs["phases"][0]["rows"])})
-    for m in solved.compare_tables(obs, model, cols=["vin", "vout", "iin", "iout"], textcols=["parent", "railIn", "typ"]):
+    for m in solved.compare_tables(obs, model, cols=["vin", "vout", "iin", "iout"], textcols=["parent", "railIn", "railOut", "group", "typ"]):
         ctx.corr(desc, "table-assembly: %s" % m["col"], m)
+    sm = solved.shape_mismatch(desc, obs, model, kw)
+    if sm is not None:
+        ctx.corr(desc, "table-shape: columns shown", sm)
     solved.sweep_residuals(ctx, desc, obs, model, kw.get("vtol", 1e-6), kw.get("itol", 1e-6))
     oracle(ctx, desc, obs, model, kw)
 
